@@ -380,10 +380,7 @@ def attach(res, texts, loop_ids, label, audit=True, limit=None):
         texts = list(texts)[:limit]
         if loop_ids and isinstance(loop_ids[0], list):
             loop_ids = loop_ids[:limit]
-    keep = [i for i, t in enumerate(texts) if all(ord(ch) < 128 for ch in t)]      # ASCII: domain of the envelope model's int()
-    if loop_ids and isinstance(loop_ids[0], list):
-        loop_ids = [loop_ids[i] for i in keep]
-    texts = [texts[i] for i in keep]
+    texts = list(texts)
     if not texts:
         return
     stats = {}
